@@ -133,35 +133,92 @@ def check_wake(eng, run):
     if waiters_attr is None:
         raise AnalysisError("anchor vanished: waiter collection of WriteFlowControl")
     short = "__" + waiters_attr.split("__", 1)[1] if "__" in waiters_attr else waiters_attr
+    from sa.analyses.base import RuleAnalysis
+    from sa.analyses.buffers import through_local
+    from sa.flow import ForIter
+
+    def fold(stmts, argmap):
+        """the statements with `<param> is None` tests decided from the arguments of the inlined call (literal None / a callable)"""
+        out = []
+        for st in stmts:
+            if isinstance(st, ast.If) and isinstance(st.test, ast.Compare) and len(st.test.ops) == 1 and isinstance(st.test.ops[0], (ast.Is, ast.IsNot)) and isinstance(st.test.left, ast.Name) \
+                    and isinstance(st.test.comparators[0], ast.Constant) and st.test.comparators[0].value is None and st.test.left.id in argmap:
+                arg = argmap[st.test.left.id]
+                is_none = True if (isinstance(arg, ast.Constant) and arg.value is None) else (False if isinstance(arg, (ast.Constant, ast.Lambda, ast.Attribute, ast.Call)) else None)
+                if is_none is not None:
+                    truth = is_none if isinstance(st.test.ops[0], ast.Is) else not is_none
+                    out += fold(st.body if truth else st.orelse, argmap)
+                    continue
+            if isinstance(st, ast.If):
+                st2 = ast.If(test=st.test, body=fold(st.body, argmap), orelse=fold(st.orelse, argmap))
+                out.append(ast.copy_location(st2, st))
+                continue
+            out.append(st)
+        return out
+
+    class WakeAll(RuleAnalysis):
+        """fact: has a loop over the whole waiter collection been passed on this path ('looped'); did the path bail out on the object's
+        own lost flag ('bail').  Private helpers are interpreted in place with whatever arguments they get."""
+        tokens = ("Exception",)
+        inline_helpers = True
+        inline_any_args = True
+
+        def __init__(self, e, method):
+            super().__init__(e)
+            self.method = method
+            self.loops = []
+
+        def initial(self, f):
+            return [frozenset()]
+
+        def may_raise(self, node, fact):
+            return []
+
+        def _is_waiters(self, e):
+            if isinstance(e, ast.Call) and e.args and (dotted(e.func) or "").split(".")[-1] in ("list", "tuple", "iter", "reversed"):
+                e = e.args[0]
+            if isinstance(e, ast.Name) and self.fn is not None:
+                e = through_local(self.fn, e)
+            return (dotted(e) or "").endswith(short)
+
+        def transfer(self, node, fact):
+            if isinstance(node, ForIter) and self._is_waiters(node.stmt.iter):
+                argmap = dict(self.interp.inline_args[-1]) if self.interp is not None and self.interp.inline_args else {}
+                if not any(lp is node.stmt and am == {k: ast.dump(v) for k, v in argmap.items()} for lp, am, _ in self.loops):
+                    self.loops.append((node.stmt, {k: ast.dump(v) for k, v in argmap.items()}, argmap))
+                return [fact | {"looped"}]
+            return [fact]
+
+        def for_exhausted(self, node, fact):
+            return [fact | {"looped"}] if self._is_waiters(node.stmt.iter) else [fact]  # an empty collection: nobody to wake
+
+        def branch(self, test, fact):
+            if self.method == "connection_lost" and isinstance(test, ast.Attribute) and "connection_lost" in test.attr and "looped" not in fact:
+                return [fact | {"bail"}], [fact]
+            return [fact], [fact]
+
     for name, completer in (("resume_writing", {"set_result"}), ("connection_lost", {"set_exception", "set_result"})):
         fn = fc.methods.get(name)
         if fn is None:
             raise AnalysisError(f"anchor vanished: WriteFlowControl.{name}")
-        loops = [n for n in own_nodes(fn.node) if isinstance(n, ast.For) and (dotted(n.iter) or ast.unparse(n.iter)).endswith(short) or
-                 (isinstance(n, ast.For) and isinstance(n.iter, ast.Call) and n.iter.args and (dotted(n.iter.args[0]) or "").endswith(short))]
-        ok = len(loops) == 1
-        why = ""
-        if ok:
-            lp = loops[0]
-            if any(isinstance(x, (ast.Break, ast.Return)) for x in ast.walk(lp)):
-                ok, why = False, "the loop over the waiters can stop early (break/return): later senders stay suspended for ever"
-            # every branch for a not-done waiter completes it
-            elif not _completes_all(lp.body, lp.target.id if isinstance(lp.target, ast.Name) else "", completer):
-                ok, why = False, "some branch of the loop body leaves a pending waiter untouched"
-            # nothing returns before the loop except an idempotence guard on the object's own lost flag
-            for st in fn.node.body:
-                if st is lp:
-                    break
-                for r in ast.walk(st):
-                    if isinstance(r, ast.Return):
-                        guard_ok = isinstance(st, ast.If) and "connection_lost" in ast.unparse(st.test) and name == "connection_lost"
-                        if not guard_ok:
-                            ok, why = False, "an early return precedes the wake-up loop"
-        else:
-            why = "there must be exactly one loop over the whole waiter collection"
+        an = WakeAll(eng, name)
+        out = Interp(an, fn).run()
+        ok, why, where = True, "", fn.node
+        if not an.loops:
+            ok, why = False, "there is no loop over the whole waiter collection"
+        for f, tr in out.ret.items():
+            if "looped" not in f and "bail" not in f:
+                ok, why = False, "a path returns without having gone through the loop that wakes the waiters (an early return precedes the wake-up loop)"
+        for lp, _k, argmap in an.loops:
+            body = fold(lp.body, argmap)
+            if any(isinstance(x, (ast.Break, ast.Return)) for st in body for x in ast.walk(st)):
+                ok, why, where = False, "the loop over the waiters can stop early (break/return): later senders stay suspended for ever", lp
+            elif not _completes_all(body, lp.target.id if isinstance(lp.target, ast.Name) else "", completer):
+                ok, why, where = False, ("some branch of the loop body leaves a pending waiter untouched" if name == "connection_lost" else
+                                         "some branch of the loop body leaves a pending waiter untouched (or completes it with something other than a plain wake-up)"), lp
         if not ok:
-            run.finding("C20.wake", fn, loops[0] if loops else fn.node, f"{name}(): {why}")
-        run.ob("C20.wake", f"{fn.short}:wakes-every-waiter", ok)
+            run.finding("C20.wake", fn, where if where is not fn.node and any(where is x for x in ast.walk(fn.node)) else fn.node, f"{name}(): {why}")
+        run.ob("C20.wake", f"{fn.short}:wakes-every-waiter", ok, loops=len(an.loops))
     cl = fc.methods["connection_lost"]
     clears = any(isinstance(n, ast.Assign) and any((dotted(t) or "").endswith("__write_paused") for t in n.targets) and isinstance(n.value, ast.Constant) and n.value.value is False for n in own_nodes(cl.node))
     if not clears:
@@ -232,16 +289,30 @@ def _completes_all(body, var, completer) -> bool:
 def check_own(eng, run):
     fc = _flow(eng)
     dr = fc.methods["drain"]
-    src_nodes = list(own_nodes(dr.node))
+    from sa.norm import nodes_inl, private_helper
+    src_nodes = [n for n, _o in nodes_inl(dr)]  # drain() and the private helpers it delegates to (creating / registering the waiter)
     created = [n for n in src_nodes if isinstance(n, (ast.Assign, ast.AnnAssign)) and isinstance(getattr(n, "value", None), ast.Call) and _cname(n.value) == "create_future"]
     local = bool(created) and all(isinstance((n.targets[0] if isinstance(n, ast.Assign) else n.target), ast.Name) for n in created)
     var = (created[0].targets[0] if isinstance(created[0], ast.Assign) else created[0].target).id if local else None
+    # the helper returns the future it created: the local of drain() that receives it is the waiter
+    helper_made = None
+    for st in own_nodes(dr.node):
+        if isinstance(st, (ast.Assign, ast.AnnAssign)) and isinstance(getattr(st, "value", None), ast.Call):
+            g = private_helper(dr, st.value)
+            if g is not None and created and any(c in list(own_nodes(g.node)) for c in created) \
+                    and all(isinstance(r.value, ast.Name) and r.value.id == var for r in own_nodes(g.node) if isinstance(r, ast.Return)):
+                t0 = st.targets[0] if isinstance(st, ast.Assign) else st.target
+                if isinstance(t0, ast.Name):
+                    helper_made = (g, t0.id)
     if not local:
         run.finding("C20.own", dr, dr.node, "the future awaited by drain() is not created per call in a local: senders share a waiter, so cancelling one cancels (or strands) the others")
     run.ob("C20.own", f"{dr.short}:per-call-future", local)
     # parked before the await
+    await_var = helper_made[1] if helper_made else var
     an = AtomicSection(eng, lambda n: isinstance(n, ast.Call) and _cname(call_of(n)) in ("append", "add") and var is not None and any(dotted(a) == var for a in call_of(n).args),
-                       lambda n: isinstance(n, ast.Await) and isinstance(n.value, ast.Name) and n.value.id == var)
+                       lambda n: isinstance(n, ast.Await) and isinstance(n.value, ast.Name) and n.value.id == await_var)
+    an.inline_helpers = True
+    an.inline_any_args = True
     Interp(an, dr).run()
     ok = bool(an.starts) and bool(an.ends) and all(st == "armed" for _, st in an.ends)
     if not ok:
@@ -412,12 +483,13 @@ def run(eng, run):
     _verify_anchor_names(eng, run)
     run.not_decided += NOT_DECIDED
     run.assumptions += ["asyncio transports call pause_writing/resume_writing/connection_lost as documented"]
-    check_drain(eng, run)
-    check_zero(eng, run)
-    check_wake(eng, run)
-    check_done(eng, run)
-    check_own(eng, run)
-    check_route(eng, run)
+    run.attempt(check_drain, eng, run)
+    run.attempt(check_zero, eng, run)
+    run.attempt(check_wake, eng, run)
+    run.attempt(check_done, eng, run)
+    run.attempt(check_own, eng, run)
+    run.attempt(check_route, eng, run)
+    run.end_of_rules()
 
 
 # ---------------------------------------------------------------------------------------------- self-test corpus
